@@ -85,7 +85,8 @@ def isSubdir (o : Oracles) (basePath testPath : Str) (trailingSlash wildcards : 
               else if endsWith basePath [slash] then basePath else basePath ++ [slash]
   let test := if trailingSlash then beforeLastSlash testPath ++ [slash]
               else if endsWith testPath [slash] then testPath else testPath ++ [slash]
-  if wildcards then o.fnmatchcase test base else startsWith test base
+  -- `fnmatch.fnmatchcase(test_path, base_path + '*')`: `base` ends in '/', anything below it is a subpath
+  if wildcards then o.fnmatchcase test (base ++ [42]) else startsWith test base
 
 /-! ### the filter classes -/
 
@@ -448,5 +449,42 @@ def childRecord (r : Rec) (item : Info) (s : ListingStep) : Rec :=
 def recordAlong : Rec → Info → List ListingStep → Rec × Info
   | r, u, [] => (r, u)
   | r, u, s :: rest => recordAlong (childRecord r u s) s.child rest
+
+/-! ### records of the links an HTML/CSS document offers (`ItemSession.add_child_url`) -/
+
+/-- One scraped link: embedded object (`inline=True`: img, iframe, frame, stylesheet, ...) or plain hyperlink. -/
+structure LinkStep where
+  inline : Bool
+  child : Info
+  deriving DecidableEq, Repr
+
+/-- `add_child_url(url, inline=...)` with `level=None`: level + 1;
+`inline_level = (url_record.inline_level or 0) + 1 if inline else None`. -/
+def httpChildRecord (r : Rec) (item : Info) (s : LinkStep) : Rec :=
+  { parent := some item
+    root := match r.root with
+      | some t => some t
+      | none => some item
+    level := r.level + 1
+    inlineLevel := if s.inline then some (r.inlineLevel.getD 0 + 1) else none
+    tryCount := 0 }
+
+/-- The stored record and URL of the item reached from item `u` (record `r`) along a chain of scraped links. -/
+def httpRecordAlong (r : Rec) (u : Info) (path : List LinkStep) : Rec × Info :=
+  path.foldl (fun (p : Rec × Info) s => (httpChildRecord p.1 p.2 s, s.child)) (r, u)
+
+/-! ### comma separated option values (`AppArgumentParser.comma_list`) -/
+
+/-- `str.isspace()` of one code point (what `str.strip()` removes) -/
+def isPySpace (c : Nat) : Bool :=
+  (9 ≤ c && c ≤ 13) || (28 ≤ c && c ≤ 32) || c == 0x85 || c == 0xa0 || c == 0x1680 ||
+  (0x2000 ≤ c && c ≤ 0x200a) || c == 0x2028 || c == 0x2029 || c == 0x202f || c == 0x205f || c == 0x3000
+
+/-- `s.strip()` -/
+def pyStrip (s : Str) : Str := ((s.dropWhile isPySpace).reverse.dropWhile isPySpace).reverse
+
+/-- `comma_list(string)`: split on ',', strip every item, drop the empty ones. -/
+def commaList (s : Str) : List Str :=
+  ((splitOn1 s 44).map pyStrip).filter (fun e => !e.isEmpty)
 
 end Wpull.Filter
